@@ -197,21 +197,33 @@ var empties = []value{
 	{src: "[{}]", ty: m.ArrOf(m.MapOf(m.TAny)), constant: true, shape: m.ArrOf(m.MapOf(m.TNone)), kind: "empty"},
 	{src: "{k:[]}", ty: m.MapOf(m.ArrOf(m.TAny)), constant: true, shape: m.MapOf(m.ArrOf(m.TNone)), kind: "empty"},
 	{src: "{k:{}}", ty: m.MapOf(m.MapOf(m.TAny)), constant: true, shape: m.MapOf(m.MapOf(m.TNone)), kind: "empty"},
+	// an empty literal reached through an element or field of a literal is still an empty literal
+	{src: "[[]][0]", ty: m.ArrOf(m.TAny), constant: true, shape: m.ArrOf(m.TNone), kind: "empty:element"},
+	{src: "[{}][0]", ty: m.MapOf(m.TAny), constant: true, shape: m.MapOf(m.TNone), kind: "empty:element"},
+	{src: "{k:[]}.k", ty: m.ArrOf(m.TAny), constant: true, shape: m.ArrOf(m.TNone), kind: "empty:field"},
+	{src: "{k:{}}[\"k\"]", ty: m.MapOf(m.TAny), constant: true, shape: m.MapOf(m.TNone), kind: "empty:field"},
+	{src: "[[[]]][0]", ty: m.ArrOf(m.ArrOf(m.TAny)), constant: true, shape: m.ArrOf(m.ArrOf(m.TNone)), kind: "empty:element"},
+	{src: "([[]])[0]", ty: m.ArrOf(m.TAny), constant: true, shape: m.ArrOf(m.TNone), kind: "empty:element"},
 }
 
 // constant expressions built from literals: treated like constants
 func constExprs(t *m.Type) []value {
-	if t.K != m.Arr || t.Sub.K == m.Any {
-		return []value{{src: "(" + lit(t) + ")", ty: t, constant: true, kind: "const-expr:group"}}
-	}
 	l := lit(t)
-	return []value{
+	sel := []value{
+		{src: "[" + l + "][0]", ty: t, constant: true, kind: "const-expr:element"},
+		{src: "{k:" + l + "}.k", ty: t, constant: true, kind: "const-expr:field"},
+		{src: "{k:" + l + "}[\"k\"]", ty: t, constant: true, kind: "const-expr:field"},
+	}
+	if t.K != m.Arr || t.Sub.K == m.Any {
+		return append(sel, value{src: "(" + l + ")", ty: t, constant: true, kind: "const-expr:group"})
+	}
+	return append(sel, []value{
 		{src: "(" + l + ")", ty: t, constant: true, kind: "const-expr:group"},
 		{src: l + "+" + l, ty: t, constant: true, kind: "const-expr:concat"},
 		{src: l + "[:1]", ty: t, constant: true, kind: "const-expr:slice"},
 		{src: l + "*2", ty: t, constant: true, kind: "const-expr:repeat"},
 		{src: "[]+" + l, ty: t, constant: true, kind: "const-expr:empty-concat"},
-	}
+	}...)
 }
 
 // expressions over variables: treated like variables
@@ -240,6 +252,9 @@ func varExprs(t *m.Type) []value {
 		value{src: "sm.k", ty: t, pre: []string{"sm:{}" + t.String()}, kind: "var-expr:field"},
 		value{src: "(sf)", ty: t, pre: []string{"func sf:" + t.String(), "    r:" + t.String(), "    return r", "end"}, kind: "var-expr:call"},
 	)
+	if t.K != m.Any {
+		out = append(out, value{src: "sy.(" + t.String() + ")", ty: t, pre: []string{"sy:any", "sy = " + lit(t)}, kind: "var-expr:type-assertion"})
+	}
 	return out
 }
 
@@ -284,7 +299,7 @@ func useAll(pre []string) string {
 	// declared helper variables must be used: print them
 	var names []string
 	for _, l := range pre {
-		if i := strings.Index(l, ":"); i > 0 && !strings.HasPrefix(l, "func") && !strings.HasPrefix(l, " ") {
+		if i := strings.Index(l, ":"); i > 0 && !strings.HasPrefix(l, "func") && m.IsIdent(l[:i]) {
 			names = append(names, l[:i])
 		}
 	}
